@@ -93,6 +93,8 @@ func (m *DistrStakingMigrate) Execute(ctx sdk.Context, cdc codec.BinaryCodec, fr
 		info.DelegatorAddress = sdk.AccAddress(to.Bytes()).String()
 		stakingStore.Delete(delegateIterator.Key())
 		stakingStore.Set(stakingtypes.GetDelegationKey(to.Bytes(), validatorAddr), stakingtypes.MustMarshalDelegation(cdc, info))
+		stakingStore.Delete(stakingtypes.GetDelegationsByValKey(validatorAddr, from))
+		stakingStore.Set(stakingtypes.GetDelegationsByValKey(validatorAddr, to.Bytes()), []byte{})
 
 		events = append(events,
 			sdk.NewEvent(
